@@ -59,4 +59,21 @@ Classify(s) ==
     ELSE LET r == Run(s, "s0", Empty) IN
          IF r.st \in {"in", "fr", "ed"} THEN [k |-> "num", canon |-> Canon(r.a)]
          ELSE [k |-> "unspec", canon |-> <<>>]
+
+\* ---- exact value of a number item as <<m, e>> = m * 10^e  (small items only: digits 0 1 2, used by Filter.tla)
+DigitVal(c) == CASE c = "0" -> 0 [] c = "1" -> 1 [] c = "2" -> 2 [] OTHER -> 0
+RECURSIVE DigitsVal(_, _)
+DigitsVal(s, v) == IF s = <<>> THEN v ELSE DigitsVal(Tail(s), 10 * v + DigitVal(Head(s)))
+NumOf(s) == IF Len(s) = 1 /\ s[1] \in Sign THEN <<0, 0>>
+            ELSE LET a == Run(s, "s0", Empty).a
+                     m == DigitsVal(a.int \o a.frac, 0)
+                     x == DigitsVal(a.exp, 0) IN
+                 <<IF a.sign = "-" THEN 0 - m ELSE m, (IF a.esign = "-" THEN 0 - x ELSE x) - Len(a.frac)>>
+RECURSIVE Pow10(_)
+Pow10(n) == IF n <= 0 THEN 1 ELSE 10 * Pow10(n - 1)
+\* sign of a - b for a = <<m1, e1>>, b = <<m2, e2>>
+Cmp(a, b) == LET e == IF a[2] < b[2] THEN a[2] ELSE b[2]
+                 x == a[1] * Pow10(a[2] - e)
+                 y == b[1] * Pow10(b[2] - e) IN
+             IF x < y THEN -1 ELSE IF x > y THEN 1 ELSE 0
 =============================================================================
